@@ -18,6 +18,7 @@ import (
 	"verifsim/core"
 	_ "verifsim/h/kvs"
 	_ "verifsim/h/pipe"
+	_ "verifsim/h/repl"
 	_ "verifsim/h/walq"
 )
 
